@@ -66,7 +66,7 @@ func c14(c *core.Ctx) {
 			c.Missing("default error renderer func(context.Context, *status.Status, http.ResponseWriter) in httpgrpc")
 		} else {
 			decl, pk := p.FuncDecl(fwd[0])
-			f, err := core.NewIntFunc(decl, pk.TypesInfo)
+			f, err := core.NewIntFunc(decl, pk.TypesInfo, p.VarInit)
 			if err != nil {
 				c.Undecided(core.FuncName(fwd[0]), fwd[0].Pos(), "forward table is not a constant switch tree: %v", err)
 			} else {
@@ -126,7 +126,7 @@ func c14(c *core.Ctx) {
 			c.Missing("fallback table function func(int) codes.Code in httpgrpc")
 		} else {
 			decl, pk := p.FuncDecl(back[0])
-			f, err := core.NewIntFunc(decl, pk.TypesInfo)
+			f, err := core.NewIntFunc(decl, pk.TypesInfo, p.VarInit)
 			if err != nil {
 				c.Undecided(core.FuncName(back[0]), back[0].Pos(), "fallback table is not a constant switch tree: %v", err)
 			} else {
